@@ -72,6 +72,7 @@ Example::
 import functools
 import itertools
 import os.path
+import posixpath
 import urllib.parse
 import urllib.request
 import xml.dom
@@ -275,17 +276,21 @@ class Replacer:
     """
 
     def __init__(self, base):
+        # scheme and host of an absolute or scheme-relative base are kept
+        self.scheme, self.location = urllib.parse.urlsplit(base)[:2]
         self.base = self.extract_base(base)
 
     def __call__(self, uri):
         scheme, location, path, query, fragment = urllib.parse.urlsplit(uri)
-        if scheme or location or path.startswith('/'):
-            # keep anything absolute
+        if scheme or location or path.startswith('/') or not path:
+            # keep anything absolute (and references to the document itself)
             return uri
 
-        path, filename = os.path.split(path)
-        combined = os.path.normpath(os.path.join(self.base, path, filename))
-        return urllib.request.pathname2url(combined)
+        # path is part of a URL already: no further quoting, "/" separated
+        combined = posixpath.normpath(posixpath.join(self.base, path))
+        return urllib.parse.urlunsplit(
+            (self.scheme, self.location, combined, query, fragment)
+        )
 
     @staticmethod
     def extract_base(uri):
